@@ -21,6 +21,7 @@
  *                           clock jumps / a slow or suspended process, as seen by any deadline logic in the program
  *   pid <n>                 value served by getpid
  *   host <name>             value served by gethostname / uname.nodename
+ *   tty <fd> <0|1>          what isatty(fd) answers (default: the real answer); terminals are a configuration like any other
  *   heappad <bytes>         leaked malloc before main (moves later heap addresses)
  *   heapfrag <u64>          seed of a fragmentation pattern built before main: ~48 blocks of mixed sizes are allocated
  *                           and a seed-chosen subset freed, so that later allocations land in holes and their RELATIVE
@@ -74,6 +75,7 @@ static long long time_ticks = 0; static long long time_step = 1;
 static long plan_pid = 0; static int have_pid = 0;
 static char plan_host[65]; static int have_host = 0;
 static char logpath[512];
+static signed char tty_answer[16] = { -1, -1, -1, -1, -1, -1, -1, -1, -1, -1, -1, -1, -1, -1, -1, -1 };
 
 static const struct { const char *n; int v; } errtab[] = {
     {"EINTR", EINTR}, {"EIO", EIO}, {"ENOSPC", ENOSPC}, {"EDQUOT", EDQUOT}, {"EFBIG", EFBIG},
@@ -194,7 +196,7 @@ __attribute__((constructor)) static void procsim_init(void) {
         for (char *line = strtok_r(pbuf, "\n", &save); line; line = strtok_r(NULL, "\n", &save)) {
             char a[64], b[512], c[64], d[64], e[64];
             if (line[0] == '#' || !line[0]) continue;
-            if (sscanf(line, "role %63s %511s", a, b) == 2) {
+            if (sscanf(line, "role %63s %511[^\n]", a, b) == 2) {
                 int r2 = role_by_name(a);
                 if (r2 > 0) {
                     role_path[r2] = strdup(b);
@@ -205,6 +207,7 @@ __attribute__((constructor)) static void procsim_init(void) {
             else if (sscanf(line, "time %63s", a) == 1) { plan_time = strtoll(a, NULL, 0); have_time = 1; }
             else if (sscanf(line, "pid %63s", a) == 1) { plan_pid = strtol(a, NULL, 0); have_pid = 1; }
             else if (sscanf(line, "host %63s", a) == 1) { snprintf(plan_host, sizeof plan_host, "%s", a); have_host = 1; }
+            else if (sscanf(line, "tty %63s %63s", a, c) == 2) { int fdn = atoi(a); if (fdn >= 0 && fdn < 16) tty_answer[fdn] = atoi(c) ? 1 : 0; }
             else if (sscanf(line, "heappad %63s", a) == 1) { heappad = strtoull(a, NULL, 0); }
             else if (sscanf(line, "heapfrag %63s", a) == 1) { heapfrag = strtoull(a, NULL, 0); }
             else if (sscanf(line, "fault %63s %63s %63s %63s %63s", a, c, d, e, b) >= 4 && nfaults < MAXFAULT) {
@@ -515,4 +518,17 @@ pid_t gettid(void) {
     if (!active) return real();
     logf_("%ld gettid\n", seq++);
     return (pid_t)(have_pid ? plan_pid : 4242);
+}
+
+int isatty(int fd) {
+    static int (*real)(int);
+    if (!real) real = dlsym(RTLD_NEXT, "isatty");
+    if (active && fd >= 0 && fd < 16 && tty_answer[fd] >= 0) {
+        logf_("%ld isatty fd=%d ret=%d\n", seq++, fd, (int)tty_answer[fd]);
+        if (!tty_answer[fd]) errno = ENOTTY;
+        return tty_answer[fd];
+    }
+    int r = real(fd);
+    if (active) logf_("%ld isatty fd=%d ret=%d\n", seq++, fd, r);
+    return r;
 }
